@@ -548,13 +548,16 @@ func TestCheck(t *testing.T) {
 		}
 	}
 	// ---- group S: response shapes
+	// (responses also get a header set larger than one HTTP/2 frame: the header block must be continued in CONTINUATION frames,
+	// also when it ends the stream - 204, HEAD, empty body)
+	respHss := append(append([]hdrSet(nil), hss...), hdrSet{"20KiB-incompressible", [][2]string{{"X-Huge-A", strings.Repeat("{}<>^`|~", 1400)}, {"X-Huge-B", strings.Repeat("<^>{~}`|", 1200)}}})
 	rsizes := []int{0, 1, 16385}
 	if thorough {
 		rsizes = append(rsizes, 1<<20+1)
 	}
 	for _, proto := range []string{"h1", "h2"} {
 		for _, pieces := range []string{"one", "three-flush", "bytes64"} {
-			for _, hs := range hss {
+			for _, hs := range respHss {
 				proto, pieces, hs := proto, pieces, hs
 				if !thorough && hs.name != "repeated" && pieces != "one" {
 					continue
